@@ -1,8 +1,9 @@
 (* C17 — property theorems only (the part of "terminates promptly, no fault" that a model can carry;
    run-time faults and real time/memory are exercised by the harness). *)
 From Coq Require Import ZArith Bool Lia List NArith.
-From GV Require Import C17.Model C17.Proofs Lib.Bytes C09.Model C09.Proofs C20.Model C20.Proofs.
+From GV Require Import C17.Model C17.Proofs Lib.Bytes C09.Model C09.Proofs C20.Model C20.Proofs C08.Model C17.MemberCost.
 From GVGen Require Import Tables.
+Import ListNotations.
 
 (* 1. Constant shifts: with the guard the source has NOW, every shift that is carried out allocates
       at most bits(operand) + 1074 bits, whatever count was written (a 13-digit count costs nothing:
@@ -25,7 +26,33 @@ Theorem C17_cache_load_never_faults :
 Proof. intros; now apply load_bytes_no_fault. Qed.
 Print Assumptions C17_cache_load_never_faults.
 
+(* 4. Selector lookup is linear in the size of the declarations, whatever the shape of the
+      embedding graph (diamond lattices with exponentially many paths, cycles): one Member
+      operation makes at most 1 + (total number of fields) findMember invocations, because every
+      struct is expanded at most once; gg_findc is C08's lookup model with a counter and returns
+      exactly the member C08's model returns. *)
+Theorem C17_member_lookup_cost_linear :
+  forall (e : env) (name : N) (id : nat) (p : bool),
+    snd (gg_findc (S (length e)) e name id p []) <= 1 + total_fields e /\
+    fst (fst (gg_findc (S (length e)) e name id p [])) = gg_member e name id p /\
+    NoDup (snd (gg_find (S (length e)) e name id p [])).
+Proof.
+  intros. split; [apply member_lookup_cost_linear|].
+  split; [apply member_lookup_is_the_modelled_lookup|apply member_lookup_visits_once].
+Qed.
+Print Assumptions C17_member_lookup_cost_linear.
+
 (* ---- non-vacuity ---- *)
 Example ex_shift : fold_shl 1 1074 = Some (2 ^ 1074)%Z /\ fold_shl 1 1075 = None /\ fold_shl 1 (-7) = None /\
                    fold_shl 1 1000000000000 = None.
 Proof. vm_compute. repeat split. Qed.
+
+(* a 3-level diamond lattice (types 0..5; 0,1 embed *2,*3; 2,3 embed *4,*5; 4,5 have one plain field):
+   8 embedding paths, but a missing selector costs 7 invocations = 1 + one per distinct struct reached *)
+Example ex_lattice_cost :
+  let emb t := mkField 99 true 0 true (FPtr t) in
+  let leaf := mkDecl true false [mkField 7 true 0 false (FBasic 2)] [] in
+  let e := [mkDecl true false [emb 2; emb 3] []; mkDecl true false [emb 2; emb 3] [];
+            mkDecl true false [emb 4; emb 5] []; mkDecl true false [emb 4; emb 5] []; leaf; leaf] in
+  gg_findc (S (length e)) e 55 0 false [] = (NotFound, [3; 5; 4; 2; 0], 7) /\ total_fields e = 10.
+Proof. vm_compute. split; reflexivity. Qed.
